@@ -48,9 +48,11 @@ def proj_val(v, scale):
 F64_EPS = 2.0 ** -34      # float64 family: value = 1/4 + k * 2^-34 (exact in float64; neighbours collapse in float32)
 
 
-def to_tensor(maps, S, C, H, W, scale, f64=False):
+def to_tensor(maps, S, C, H, W, scale, f64=False, half=""):
     import torch
 
+    if half:      # small integers, exact in bfloat16 / float16 (mixed-precision inference hands such maps to the peak finders)
+        return torch.tensor(maps, dtype=torch.float32).reshape(S, C, H, W).to(torch.bfloat16 if half == "bf16" else torch.float16)
     if f64:
         t = torch.tensor(maps, dtype=torch.float64).reshape(S, C, H, W)
         return (t / scale) * F64_EPS + 0.25
@@ -100,7 +102,7 @@ def observe_local(case):
     rec = dict(case, rough=[], none=[], ref=[], raised="")
     ps = rec.pop("ps")
     try:
-        cms = to_tensor(case["maps"], S, C, H, W, scale, f64)
+        cms = to_tensor(case["maps"], S, C, H, W, scale, f64, case.get("half", ""))
         rec["rough"] = local_rows(pf.find_local_peaks_rough(cms.clone(), threshold=thr), scale, f64)
         rec["none"] = local_rows(pf.find_local_peaks(cms.clone(), threshold=thr, refinement=None), scale, f64)
         for P in ps:
@@ -121,7 +123,7 @@ def observe_global(case):
     rec = dict(case, rough=[], none=[], ref=[], raised="")
     ps = rec.pop("ps")
     try:
-        cms = to_tensor(case["maps"], S, C, H, W, scale, f64)
+        cms = to_tensor(case["maps"], S, C, H, W, scale, f64, case.get("half", ""))
         rec["rough"] = global_rows(pf.find_global_peaks_rough(cms.clone(), threshold=thr), scale, f64)
         rec["none"] = global_rows(pf.find_global_peaks(cms.clone(), threshold=thr, refinement=None), scale, f64)
         for P in ps:
@@ -296,6 +298,22 @@ def build_cases(tier, rng, ps=(3, 5)):
     src = [c for c in cases if c["scale"] == 1 and c["h"] * c["w"] <= 9]
     for c in rng.sample(src, min(len(src), 300 if tier == "quick" else 3000)):
         cases.append(dict(c, f64=True, ps=[], maps=[list(m) for m in c["maps"]]))
+    # half-precision maps wider / taller than 256 cells: a cell index must not pass through the maps' dtype (bfloat16 has 8
+    # bits of mantissa: odd integers above 256 are not representable).  Rough detection only.
+    for k in range(24 if tier == "quick" else 200):
+        n = rng.choice((300, 320, 515))
+        H, W = (1, n) if k % 2 == 0 else (n, 1)
+        S, C = rng.choice(((1, 1), (1, 2), (2, 1)))
+        maps = []
+        for _ in range(S * C):
+            m = [0] * n
+            for _b in range(rng.randint(1, 3)):
+                c0 = rng.randrange(257, n - 1) | 1            # an odd position above 256
+                m[c0] = max(m[c0], rng.choice((3, 5, 6)))
+                m[c0 - 1] = max(m[c0 - 1], 1)
+                m[c0 + 1] = max(m[c0 + 1], 2 if m[c0 + 1] < 3 else m[c0 + 1])
+            maps.append(m)
+        cases.append(dict(h=H, w=W, s=S, c=C, thr=rng.choice((0, 1, 2)), scale=1, maps=maps, ps=[], half=("bf16" if k % 3 else "f16")))
     return cases, fed, n_exh
 
 
